@@ -661,6 +661,7 @@ func (w *world) block(n int, viaPool bool) bool {
 		if it.Kind == txgen.KLifeSpawn {
 			if ch := w.life.M.C[txgen.LifeChildAddr(*it.To, new(big.Int).SetBytes(it.Data[:32]).Uint64())]; ch != nil && !ch.Alive {
 				w.reborn = true
+				c.Probe("life/block-re-creating-a-destroyed-contract-built")
 			}
 		}
 	}
